@@ -451,4 +451,74 @@ CFailCopy(r) ==
                   ELSE (IF s.same_params /\ s.rep = r.rep0 THEN {} ELSE {"copy_params_differ"}) \cup
                        (IF s.same_dist THEN {} ELSE {"copy_distances_differ"})
                 : i \in DOMAIN r.steps}
+\* ---------------------------------------------------------------------------------
+\* 8. world / process state and twin cosmologies (round 4).
+\*    The outcome of a call depends on the parameters its object was built with (and on the call's arguments) only -
+\*    never on which other Cosmo objects were built, copied, unpickled or dropped earlier in the same process.
+\*    A TWIN of a lattice value v is v (1 + k 1e-9) for a small integer k (k = 0: v itself): twins agree to 6 significant
+\*    digits and differ in the 7th-9th.  A session builds up to three objects from ONE argument record whose field f is
+\*    replaced by twins, copies / drops / probes them in any order; a probe reads the parameter getters and runs a battery
+\*    of calls.  Demanded of every probe: the getters return what was given (to rounding for the derived ones), getters and
+\*    battery are bit-identical to those of the same object born in a FRESH world (a process that did nothing else), and
+\*    between two twins Dc(a, b), a < b, is ordered as the definitions say: E^2(z) is strictly increasing in each of
+\*    omega_m, omega_l, omega_k for z > 0 and DH = c / H0, so Dc is strictly DEcreasing in each of om, ol, ok, H0, h.
+\*    step = [op, o, k, src, kind]:  "new" (slot o := twin k)   "copy" (slot o := kind-copy of slot src)   "drop" o   "probe" o
+CTwinFields == {"om", "ol", "ok", "H0", "h"}
+\* the field is given, non-zero and actually read under the (single) reading of the arguments
+CTwinLive(a, f) == /\ f \in CTwinFields /\ ~CIsNone(a[f]) /\ a[f][1] # 0
+                   /\ Len(CNormalise(a)) = 1
+                   /\ (f \in {"ol", "ok"} => (~a.flat /\ ~COkZero(a)))
+                   /\ (f = "H0" => CIsNone(a.h))
+CTwinLt(v, k1, k2) == IF v[1] > 0 THEN k1 < k2 ELSE k2 < k1            \* order of the twins' VALUES
+CTwinSign(v, k1, k2) == IF k1 = k2 THEN 0 ELSE IF CTwinLt(v, k1, k2) THEN 1 ELSE -1      \* sign(Dc of twin k1 - Dc of twin k2)
+
+CWStep(op, o, k, src, kind) == [op |-> op, o |-> o, k |-> k, src |-> src, kind |-> kind]
+CWCreates(s) == s.op \in {"new", "copy"}
+CWNObj(steps, n) == Cardinality({i \in 1..n : CWCreates(steps[i])})          \* objects created by the first n steps
+CWAlive(steps, n, o) == /\ \E i \in 1..n : CWCreates(steps[i]) /\ steps[i].o = o
+                        /\ ~\E i \in 1..n : steps[i].op = "drop" /\ steps[i].o = o
+\* well-formed session: slots are numbered in order of creation; copies, drops and probes refer to live objects
+CWWellFormed(steps) ==
+    \A i \in DOMAIN steps : LET s == steps[i] IN
+        /\ s.op \in {"new", "copy", "drop", "probe"}
+        /\ CWCreates(s) => s.o = CWNObj(steps, i - 1) + 1
+        /\ s.op = "copy" => (CWAlive(steps, i - 1, s.src) /\ s.kind \in CCopyKinds)
+        /\ s.op \in {"drop", "probe"} => CWAlive(steps, i - 1, s.o)
+\* the twin an object IS (copies are the twin of their source): what a fresh world would make of it
+RECURSIVE CWTwin(_, _)
+CWTwin(steps, o) == LET i == CHOOSE j \in DOMAIN steps : CWCreates(steps[j]) /\ steps[j].o = o
+                    IN IF steps[i].op = "new" THEN steps[i].k ELSE CWTwin(steps, steps[i].src)
+CWProbed(steps) == {steps[i].o : i \in {j \in DOMAIN steps : steps[j].op = "probe"}}
+CWPairs(steps) == {pr \in CWProbed(steps) \X CWProbed(steps) : pr[1] < pr[2]}
+
+\* the identities of the catalogue that are evaluated on every probed twin with the twin's EXACT parameters (the binary64
+\* numbers it was given, as rationals - the harness's evaluator is not bound to 32 bits): the exact oracle moved off the lattice
+CWIdents == {"gl5", "gl5_coarse", "dc"}
+\* r = [args, f, a, b, steps, obs : Seq([err, dev, same_params, same_calls, res]), signs : Seq(<<o1, o2, sign>>)]
+\*   obs[i].res          probe: identity name -> <<units, sign>> residual (section 4), parameters = the twin's exact ones
+\*   obs[i].dev          probe: largest deviation (ulp, rounded up) of a getter from the value given / derived from the given ones
+\*   obs[i].same_params  probe: the getters are bit-identical to those of the same object born in a fresh world
+\*   obs[i].same_calls   probe: so is the battery of calls
+\*   signs               for every pair of probed objects: sign(Dc_o1(a, b) - Dc_o2(a, b)) at their last probes
+CFailWorld(r) ==
+    IF ~CTwinLive(r.args, r.f) THEN {"harness_world_field"}
+    ELSE IF ~CWWellFormed(r.steps) \/ Len(r.obs) # Len(r.steps) THEN {"harness_world_steps"}
+    ELSE IF {<<r.signs[j][1], r.signs[j][2]>> : j \in DOMAIN r.signs} # CWPairs(r.steps) THEN {"harness_world_pairs"}
+    ELSE LET p == CNormalise(r.args)[1]
+             ordered == CRLt(r.a, r.b) /\ CRLt(<<1, 100>>, CMinE2(p, r.b))       \* physical with a margin the twins cannot cross
+         IN UNION {LET s == r.steps[i]  o == r.obs[i] IN
+                     IF o.err # "none" THEN {IF CWCreates(s) THEN "world_constructor_rejected" ELSE "world_step_failed"}
+                     ELSE IF s.op # "probe" THEN {}
+                     ELSE (IF o.dev >= 0 /\ o.dev <= 4 THEN {} ELSE {"world_params_ne_given"}) \cup
+                          (IF o.same_params THEN {} ELSE {"world_params_ne_fresh_world"}) \cup
+                          (IF o.same_calls THEN {} ELSE {"world_call_ne_fresh_world"}) \cup
+                          {"twin_" \o n : n \in {m \in CWIdents :
+                              LET tol == CTol(m, p, r.a, r.b)  id == CById(m)
+                                  good(x) == x \in DOMAIN o.res /\ CResidualOK(CById(x), tol, o.res[x])
+                              IN tol >= 0 /\ ~(good(m) \/ (id.alt # "" /\ good(id.alt)))}}
+                   : i \in DOMAIN r.steps}
+            \cup (IF ordered /\ \E j \in DOMAIN r.signs :
+                        r.signs[j][3] # CTwinSign(r.args[r.f], CWTwin(r.steps, r.signs[j][1]), CWTwin(r.steps, r.signs[j][2]))
+                  THEN {"world_twin_order"} ELSE {})
+
 =============================================================================
